@@ -316,6 +316,95 @@ def h_gap_pointers(eng, n):
 
 
 # ---------------------------------------------------------------------------
+# K1b: the occupancy test of Optimize.get_position_with_three_bonds (round 6: the seed
+# C05-threebonds-free-test-rot1 was missed because the site harness turns that test into a selector)
+# ---------------------------------------------------------------------------
+
+
+def h_three_bond_free_position(eng, resname, oxygen):
+    """real Optimize.get_position_with_three_bonds on a hydroxyl oxygen that carries its anchor and two
+    substituents.  The three tetrahedral sites are tied together by the 120-degree turns: rotate_tetrahedral is
+    the exact 3-cycle of the ideal positions (justified by the Rodrigues lemma and the two-bond identities, as in
+    the three-bond branch of rebuild_tetrahedral); the distance between two different sites is one symbolic real
+    `sep` > 0.1 (sqrt(3) x the distance of the substituent from the axis), between a site and itself 0.  Which
+    site the second substituent occupies and the order of the two in the bond list are selectors.  The replay
+    builds the ideal sites concretely with the real rotate_tetrahedral and calls the unshimmed function."""
+    from pdb2pqr import utilities
+    from pdb2pqr.hydrogens import optimize
+
+    bm, res = c04._setup(resname, "internal", False)
+    o = res.get_atom(oxygen)
+    anchor = o.bonds[0]
+    hyd = [a for a in o.bonds if a.is_hydrogen][0]
+    occupied = 1 + eng.choice("second_substituent_site", 2)  # site 1 (+120) or site 2 (+240) relative to the first substituent
+    h_first = eng.flag("hydrogen_listed_before_lone_pair")
+    sep = eng.real("site_separation")
+    eng.assume(sep > 0.1)
+    res.create_atom("LP1", [o.x + 0.5, o.y - 0.6, o.z + 0.4])
+    lp = res.get_atom("LP1")
+    lp.bonds.append(o)
+    first, second = (hyd, lp) if h_first else (lp, hyd)
+    o.bonds[:] = [anchor, first, second]
+    case = f"{resname} {oxygen} bonds [{anchor.name}, {first.name}, {second.name}], {second.name} at the {'+120' if occupied == 1 else '+240'} site"
+    if eng.symbolic:
+        site_xyz = [[eng.fresh_real(f"s{i}{c}") for c in "xyz"] for i in range(3)]
+        site_of = {first.name: 0, second.name: occupied}
+
+        def put(a):
+            a.x, a.y, a.z = site_xyz[site_of[a.name]]
+
+        put(first)
+        put(second)
+
+        def cycle(atom1, atom2, angle):
+            step = {120: 1, -240: 1, 240: 2, -120: 2}.get(int(angle))
+            if step is None or atom1 is not anchor or atom2 is not o:
+                raise core.Inconclusive(f"rotate_tetrahedral({atom1.name},{atom2.name},{angle})")
+            for a in atom2.bonds:
+                if a is not atom1:
+                    site_of[a.name] = (site_of[a.name] + step) % 3
+                    put(a)
+
+        def site_index(p):
+            for i, s_ in enumerate(site_xyz):
+                if all(x is y for x, y in zip(p, s_)):
+                    return i
+            raise core.Inconclusive("distance asked for a point that is not one of the three ideal sites")
+
+        class U:
+            def __getattr__(self, name):
+                return getattr(utilities, name)
+
+            @staticmethod
+            def distance(a, b):
+                return 0.0 if site_index(list(a)) == site_index(list(b)) else sep
+
+        with patched((type(res), "rotate_tetrahedral", staticmethod(cycle)), (optimize, "util", U())):
+            got = optimize.Optimize.get_position_with_three_bonds(o)
+        gi = site_index(list(got))
+        free = ({0, 1, 2} - {0, occupied}).pop()
+        eng.check(gi == free, "three-bond-position-is-the-free-site", note=f"{case}: the returned position is site {gi} (0 = first substituent, {occupied} = second), the free site is {free}")
+        eng.check(site_of[first.name] == 0 and site_of[second.name] == occupied, "substituents-end-where-they-started", note=f"{case}: after the search the substituents sit at sites {site_of}")
+    else:
+        # concrete: ideal sites from the hydrogen's own position by the real rotation
+        p0 = list(hyd.coords)
+        sites = [p0]
+        o.bonds[:] = [anchor, hyd]
+        for _ in range(2):
+            res.rotate_tetrahedral(anchor, o, 120)
+            sites.append(list(hyd.coords))
+        res.rotate_tetrahedral(anchor, o, 120)
+        o.bonds[:] = [anchor, first, second]
+        first.x, first.y, first.z = sites[0]
+        second.x, second.y, second.z = sites[occupied]
+        got = optimize.Optimize.get_position_with_three_bonds(o)
+        d = [float(utilities.distance(got, s_)) for s_ in sites]
+        free = ({0, 1, 2} - {0, occupied}).pop()
+        eng.check(d[free] < 1e-3, "three-bond-position-is-the-free-site", note=f"{case}: distances of the returned position to the three sites {[round(x, 3) for x in d]}, the free site is {free}")
+        eng.check(float(utilities.distance(first.coords, sites[0])) < 1e-3 and float(utilities.distance(second.coords, sites[occupied])) < 1e-3, "substituents-end-where-they-started", note=case)
+
+
+# ---------------------------------------------------------------------------
 # K3b: pairing of structure atoms with template atoms in the three-point superposition
 # ---------------------------------------------------------------------------
 
@@ -563,6 +652,8 @@ def obligations(tier):
     for ff in ("amber",) if tier == "quick" else ("amber", "parse", "charmm"):
         for position in ("nterm", "cterm"):
             obs.append(Obligation(f"added-geometry-{position}-{ff}", h_added_geometry_terminal, dict(ff=ff, position=position), group="added-geometry", time_cap=1500))
+    for r, ox in (("SER", "OG"), ("THR", "OG1"), ("TYR", "OH")):
+        obs.append(Obligation(f"three-bond-free-position-{r}", h_three_bond_free_position, dict(resname=r, oxygen=ox), group="free-position", time_cap=600))
     obs.append(Obligation("neutral-terminus-locality-parse", h_neutral_terminus_locality, dict(ff="parse"), group="added-geometry", time_cap=1500))
     for ff in ("parse",) if tier == "quick" else ("parse", "amber", "charmm"):
         obs.append(Obligation(f"added-water-{ff}", h_added_water, dict(ff=ff), group="added-geometry", time_cap=1500))
@@ -605,7 +696,7 @@ META = dict(
 )
 
 MANIFEST = dict(
-    text="For C05: the real rebuild_tetrahedral/rotate_tetrahedral on symbolic coordinates (two- and three-bond branches): the added hydrogen has the parent distance and the angle to the parent-next bond of the hydrogen it is rotated from, sits at the free tetrahedral position (never on an existing hydrogen) and the existing atoms end where they started (exact: cos = -1/2, sin^2 = 3/4); every torsion change of the real set_dihedral_angle carries hydrogens with their parents (C04's symbolic classification applied to all bonds with a hydrogen, all coordinates and angles symbolic); the real update_bonds clears the peptide neighbour pointers on both sides of a chain break for every C-N distance, so the three reference atoms of a superposition are never taken across a gap. Water hydrogens through the real pipeline for a water in contact, isolated, or next to another water only (O-H and H-H against the template). Superposition algebra: C15. Round 4: every residue type as first / last residue of a chain (selector) with the same template-distance checks incl. the terminal amine hydrogens, no input heavy atom displaced by hydrogen building; a hydrogen finalised or placed by a donor attempt on an oxygen with two bonds sits at one of the two free tetrahedral positions (site harness of C14).",
+    text="For C05: the real rebuild_tetrahedral/rotate_tetrahedral on symbolic coordinates (two- and three-bond branches): the added hydrogen has the parent distance and the angle to the parent-next bond of the hydrogen it is rotated from, sits at the free tetrahedral position (never on an existing hydrogen) and the existing atoms end where they started (exact: cos = -1/2, sin^2 = 3/4); every torsion change of the real set_dihedral_angle carries hydrogens with their parents (C04's symbolic classification applied to all bonds with a hydrogen, all coordinates and angles symbolic); the real update_bonds clears the peptide neighbour pointers on both sides of a chain break for every C-N distance, so the three reference atoms of a superposition are never taken across a gap. Water hydrogens through the real pipeline for a water in contact, isolated, or next to another water only (O-H and H-H against the template). Superposition algebra: C15. Round 4: every residue type as first / last residue of a chain (selector) with the same template-distance checks incl. the terminal amine hydrogens, no input heavy atom displaced by hydrogen building; a hydrogen finalised or placed by a donor attempt on an oxygen with two bonds sits at one of the two free tetrahedral positions (site harness of C14). Round 6: the real Optimize.get_position_with_three_bonds returns the one free tetrahedral site for either site of the second substituent and either bond-list order (the three sites tied by the exact 3-cycle of the 120-degree turns, site separation an arbitrary real > 0.1 A).",
     note="Trusted: z3 (two builds), exact reals. Polar hydrogen / lone-pair placement during optimisation is outside. Known findings: N-terminal H2/H3, neutral C-terminal HO and methyl hydrogens on branch atoms are ranked by distance from CA and rotate with a bond they are not attached beyond (known_findings.json).",
     technique="polynomial lemmas over terms from the real code (z3 QF_NRA, two builds) + finite graph condition + symbolic execution",
     design="DESIGN.md section 3 C05",
